@@ -1,6 +1,7 @@
 package main
 
 import (
+	"os"
 	"encoding/json"
 	"fmt"
 	"path/filepath"
@@ -48,6 +49,39 @@ func pathCorpus(g *Gen, emit func(string)) {
 	}
 	emit("")
 	rec(nil, maxLen)
+	// long names: a limit on the length of the whole name (rather than of one segment) must not
+	// appear; lengths around the usual NAME_MAX / PATH_MAX values, normalised and not
+	for _, total := range []int{200, 254, 255, 256, 257, 300, 1023, 1024, 1025, 4095, 4096, 4097, 5000} {
+		var sb strings.Builder
+		for sb.Len() < total {
+			if sb.Len() > 0 {
+				sb.WriteByte('/')
+			}
+			sb.WriteString("seg0123456")
+		}
+		long := sb.String()[:total]
+		long = strings.TrimSuffix(long, "/")
+		emit(long)
+		emit("./" + long)
+		emit(long + "/../x.go")
+		emit("../" + long)
+	}
+	emit(strings.Repeat("x", 255) + ".go")
+	emit("d/" + strings.Repeat("y", 300))
+	// names spelled along the real working directory: the verdict is lexical and must not depend
+	// on where the process runs (climbing out and re-entering by the directory's own name escapes)
+	if wd, err := os.Getwd(); err == nil && wd != "/" {
+		comps := strings.Split(strings.Trim(wd, "/"), "/")
+		base := comps[len(comps)-1]
+		up := strings.Repeat("../", len(comps))
+		for _, nm := range []string{
+			"../" + base + "/x.go", "a/../../" + base + "/x.go",
+			up + strings.Join(comps, "/") + "/sub/x.go", "gen/../" + up + strings.Join(comps, "/") + "/x.go",
+			up + "etc/passwd", "../" + base, "../" + base + "/", base + "/x.go", "../../" + base + "/x.go",
+		} {
+			emit(nm)
+		}
+	}
 	// random byte strings, biased to path-relevant bytes
 	alphabet := []byte{'/', '.', '.', '/', 'a', 'b', '\\', 0, 0xff, 0xc3, 0x89, ' ', '~', ':'}
 	n := 3000
